@@ -18,6 +18,8 @@ ERR_SUBST = {
     "fastnbt::error::Error": "NbtError",
 }
 FN_RULES = ["deasync", "attrs", "closure_wild", "generics", "vec_alloc", "str_pattern", "take_read", "statics"]
+# decoding paths: capacity requests sized by client input carry the C04 allocation bound too (R19b)
+RD_RULES = FN_RULES + ["alloc_reserve"]
 STATICS = {"std::io::ErrorKind::UnexpectedEof.into()": "vx_eof_error()"}
 
 READER_FNS = ["read_varint", "read_varlong", "read_string", "read_bool", "read_uuid", "read_text_component", "read_bytes"]
@@ -87,7 +89,7 @@ def build(vacuity=False, only=None, interface=False):
     for f in READER_FNS:
         key = f"reader.{f}"
         items.append({"key": key, "file": PK + "reader.rs", "kind": "impl_fn", "trait": "AsyncReadPacket", "name": f,
-                      "rules": FN_RULES, "statics": STATICS, "anchors": vxlib.anchors_for(fnc[key], vacuity)})
+                      "rules": RD_RULES, "statics": STATICS, "anchors": vxlib.anchors_for(fnc[key], vacuity)})
     for f in WRITER_FNS:
         key = f"writer.{f}"
         items.append({"key": key, "file": PK + "writer.rs", "kind": "impl_fn", "trait": "AsyncWritePacket", "name": f,
@@ -111,7 +113,7 @@ def build(vacuity=False, only=None, interface=False):
         items.append({**base, "key": f"{pk}.write_to_buffer", "kind": "impl_fn", "self_ty": ty, "trait": "WritePacket", "name": "write_to_buffer",
                       "rules": FN_RULES, "subst": {"S": "Vec<u8>"}, "drop_generics": ["S"], "anchors": ["fn:begin"]})
         items.append({**base, "key": f"{pk}.read_from_buffer", "kind": "impl_fn", "self_ty": ty, "trait": "ReadPacket", "name": "read_from_buffer",
-                      "rules": FN_RULES, "subst": {"S": "Reader"}, "drop_generics": ["S"], "anchors": anch})
+                      "rules": RD_RULES, "subst": {"S": "Reader"}, "drop_generics": ["S"], "anchors": anch})
     ex = vxlib.run_vx(items)
 
     u.raw(read_text("prelude.rs"))
